@@ -289,6 +289,12 @@ def main(argv=None):
     if args.replay:
         return replay(mod, pid, args.replay, known_keys)
 
+    rdir = os.path.join(ROOT, "replays")
+    if os.path.isdir(rdir):
+        for fn in os.listdir(rdir):
+            if fn.startswith(pid + "_"):
+                os.remove(os.path.join(rdir, fn))
+
     broken = []  # names of obligations that no longer check
     build_log = ""
     checker_cmds = []
